@@ -128,6 +128,14 @@ PROPS = {
         "note": "Trusted: Coq kernel; protobuf / encoding/json as identity on the modelled message shapes (exercised on every run); that a miss or decode error falls back to parsing is read off the code (tryUseIndexingTxCache returns nil) and exercised by the 30%/100% miss runs.",
         "assumptions": ["documents unchanged between builds sharing a cache"],
     },
+    "C10": {
+        "level": "proof",
+        "design_ref": "§6 C10",
+        "technique": "Coq proof that, under the Reset-before-Put pool discipline, every retrieval of every history (successful or failing, any object handed out by sync.Pool) returns the pure retrieval function's answer; interleaved histories over several real indexes sharing the process-wide pools compared answer by answer with the pure model and the specification in Coq, with fresh-index and assignment-unchanged checks",
+        "text": "the pool is modelled as a multiset from which Get may return any pooled object; with the invariant 'pooled objects are empty' (kept on success and on the deferred Put after an error) the i-th answer of any history equals the pure answer (Coq theorem; without the Reset the model leaks, shown by computation). Histories of 20..200 retrievals interleaved over k-groups/compact/roaring indexes with ~15% failing retrievals, debug options and both collector kinds are replayed on the real code and every answer compared with the pure model.",
+        "note": "Trusted: Coq kernel; sync.Pool as an atomic multiset; the scan itself is a function in the model, that the real scan keeps no state between calls is what the history runs and the regenerated write-set obligations of C07 check. 'The assignment is not modified' is checked by deep copy/compare on every call.",
+        "assumptions": ["one process; pools shared by all indexes of the process"],
+    },
 }
 
 # properties not claimed (reason); empty when everything is claimed
